@@ -122,6 +122,7 @@ type NetCfg struct {
 	MaxHidden     int
 	AllowOrphans  bool // neurons without any source (DAG variant)
 	ParallelLinks bool // a recurrent and a non-recurrent link on the same ordered pair (cyclic variant)
+	LongChains    bool // one net in fifteen is a long sparse chain (20-70 neurons, at most six shortcut links)
 }
 
 func genNet(cfg NetCfg) *rapid.Generator[NetSpec] {
@@ -133,7 +134,35 @@ func genNetWeight() *rapid.Generator[float64] {
 		rapid.SampledFrom([]float64{1, -1, 0.5, 0, 100, -100, 2.5}))
 }
 
+// drawChain: a long, sparse acyclic network: sensor -> h1 -> h2 -> ... -> hN -> output with a few forward shortcuts. The
+// library's depth search enumerates simple paths, which stays cheap here (at most 2^6 paths) although the network is large.
+func drawChain(t *rapid.T) NetSpec {
+	s := NetSpec{ViaGenome: rapid.Bool().Draw(t, "via genome")}
+	n := rapid.IntRange(20, 70).Draw(t, "chain length")
+	s.Nodes = append(s.Nodes, NetNode{Id: 1, Role: roleInput, Act: 17})
+	for i := 0; i < n; i++ {
+		s.Nodes = append(s.Nodes, NetNode{Id: 2 + i, Role: roleHidden, Act: 4})
+	}
+	s.Nodes = append(s.Nodes, NetNode{Id: 2 + n, Role: roleOutput, Act: 4})
+	for i := 0; i <= n; i++ {
+		s.Links = append(s.Links, NetLink{From: 1 + i, To: 2 + i, W: genNetWeight().Draw(t, "w")})
+	}
+	seen := map[[2]int]bool{}
+	for k := rapid.IntRange(0, 6).Draw(t, "shortcuts"); k > 0; k-- {
+		a := rapid.IntRange(1, n).Draw(t, "shortcut from")
+		b := rapid.IntRange(a+2, n+2).Draw(t, "shortcut to")
+		if !seen[[2]int{a, b}] {
+			seen[[2]int{a, b}] = true
+			s.Links = append(s.Links, NetLink{From: a, To: b, W: genNetWeight().Draw(t, "w")})
+		}
+	}
+	return s
+}
+
 func drawNet(t *rapid.T, cfg NetCfg) NetSpec {
+	if cfg.LongChains && !cfg.Cyclic && rapid.IntRange(0, 29).Draw(t, "long chain") == 13 {
+		return drawChain(t)
+	}
 	s := NetSpec{ViaGenome: rapid.Bool().Draw(t, "via genome")}
 	nIn := rapid.IntRange(1, 4).Draw(t, "inputs")
 	nBias := rapid.IntRange(0, 3).Draw(t, "bias")
